@@ -152,3 +152,20 @@ Theorem c13_metadata_never_changes_tables_of_update_merge : forall noise e e' d,
   stmt_writes (analyze e false (r_dml noise d)) = stmt_writes (analyze e' false (r_dml noise d)).
 Proof. exact metadata_never_changes_dml. Qed.
 Print Assumptions c13_metadata_never_changes_tables_of_update_merge.
+
+(** * the expression fragment (functions, arithmetic, CASE, CAST, window items at every nesting level; Tree/LemmaAExprMeta.v) under an
+    ARBITRARY provider: table-level lineage is the specified one, and does not depend on the provider *)
+From SV Require Import Tree.RenderExpr Tree.LemmaAExprMeta.
+Theorem c13_exact_tables_any_provider_with_expressions : forall noise e s,
+  noise_ok noise = true -> env_ok_md e = true -> XMd.stmt_ok_a s = true -> LemmaAProofs.sshape s = true ->
+  stmt_reads (analyze e false (r_stmt_x noise s)) = sort_strings (spec_reads (e_cfg e) s) /\
+  stmt_writes (analyze e false (r_stmt_x noise s)) = sort_strings (spec_writes (e_cfg e) s).
+Proof. exact lemma_A_tables_x_any_provider. Qed.
+Print Assumptions c13_exact_tables_any_provider_with_expressions.
+
+Theorem c13_metadata_never_changes_tables_with_expressions : forall noise e p s,
+  noise_ok noise = true -> env_ok_md e = true -> XMd.stmt_ok_a s = true -> LemmaAProofs.sshape s = true ->
+  stmt_reads (analyze (with_provider e p) false (r_stmt_x noise s)) = stmt_reads (analyze e false (r_stmt_x noise s)) /\
+  stmt_writes (analyze (with_provider e p) false (r_stmt_x noise s)) = stmt_writes (analyze e false (r_stmt_x noise s)).
+Proof. exact metadata_never_changes_tables_x_with_provider. Qed.
+Print Assumptions c13_metadata_never_changes_tables_with_expressions.
